@@ -253,4 +253,7 @@ class CardanoByronLegacy:
         Returns:
             str: Derivation path
         """
+        # Index objects shall be rendered by their integer value (not by their default string representation)
+        first_idx = first_idx.ToInt() if isinstance(first_idx, Bip32KeyIndex) else first_idx
+        second_idx = second_idx.ToInt() if isinstance(second_idx, Bip32KeyIndex) else second_idx
         return f"m/{first_idx}'/{second_idx}'"
